@@ -10,6 +10,7 @@ CONSTANTS
   SwPtrFreshCtx = TRUE
   SwNestedSourceTag = TRUE
   SwEmptyRecordSourceTag = TRUE
+  SwFlatNested = TRUE
   SwRunAllTests = TRUE
   SwSoftPT = "any"
 INIT TraceInit
